@@ -343,3 +343,480 @@ Theorem fresh_after_idle st bs : fidle st ->
 Proof.
   intros Hi. apply fsim_run. unfold fsim, blen. rewrite Hi. cbn. repeat split; lia.
 Qed.
+
+(* ------------------------------------------------------------------ _parse_commands *)
+
+Definition nnl (l : list Z) : Prop := Forall (fun b => 0 <= b) l.
+
+Lemma nnl_firstn k l : nnl l -> nnl (firstn k l).
+Proof.
+  unfold nnl. revert l. induction k as [|k IH]; intros [|x l] H; cbn; try constructor.
+  - inversion H; assumption.
+  - apply IH. inversion H; assumption.
+Qed.
+
+Lemma nnl_skipn k l : nnl l -> nnl (skipn k l).
+Proof.
+  unfold nnl. revert l. induction k as [|k IH]; intros [|x l] H; cbn; try assumption.
+  apply IH. inversion H; assumption.
+Qed.
+
+Lemma nnl_slice a b l : nnl l -> nnl (slice a b l).
+Proof. intros H. unfold slice. apply nnl_firstn, nnl_skipn, H. Qed.
+
+Lemma nnl_app l1 l2 : nnl (l1 ++ l2) <-> nnl l1 /\ nnl l2.
+Proof. unfold nnl. apply Forall_app. Qed.
+
+Lemma le_dec_nnl l : nnl l -> 0 <= le_dec l.
+Proof. induction 1 as [|x l Hx _ IH]; cbn [le_dec]; lia. Qed.
+
+Definition cmd_id (c : list Z) : option Z := uint_le (firstn 2 c).
+Definition csub (c : list Z) : Z := le_dec (slice 2 4 c).
+
+(* a command with a known id and the length that id prescribes *)
+Definition wf_cmd (c : list Z) : Prop :=
+  exists cid, cmd_id c = Some cid /\
+    (((cid = 1 \/ cid = 2) /\ Z.of_nat (length c) = cmd_len) \/
+     (cid = 4 /\ exists sl, uint_le (slice 16 18 c) = Some sl /\ 0 <= sl /\
+                            Z.of_nat (length c) = pt_head + sl * pt_entry)).
+
+(* at most one command per subsystem (given the subsystems [subs] already seen) *)
+Fixpoint fresh_subs (subs : list Z) (cmds : list (list Z)) : Prop :=
+  match cmds with
+  | [] => True
+  | c :: cs => ~ In (csub c) subs /\ fresh_subs (subs ++ [csub c]) cs
+  end.
+
+Lemma zmem_In x l : zmem x l = true <-> In x l.
+Proof.
+  unfold zmem. rewrite existsb_exists. split.
+  - intros (y & Hy & E). apply Z.eqb_eq in E. subst. exact Hy.
+  - intros H. exists x. split; [exact H|apply Z.eqb_refl].
+Qed.
+
+Lemma wf_cmd_len c : wf_cmd c -> 26 <= Z.of_nat (length c).
+Proof.
+  intros (cid & _ & [[_ H]|(_ & sl & _ & Hs & H)]); consts; lia.
+Qed.
+
+Lemma firstn_app_exact {A} (c rest : list A) : firstn (length c) (c ++ rest) = c.
+Proof. rewrite firstn_app, Nat.sub_diag, firstn_all. cbn. apply app_nil_r. Qed.
+
+Lemma skipn_app_exact {A} (c rest : list A) : skipn (length c) (c ++ rest) = rest.
+Proof. rewrite skipn_app, Nat.sub_diag, skipn_all. reflexivity. Qed.
+
+Lemma split_complete cmds : forall fuel subs acc,
+  Forall wf_cmd cmds -> fresh_subs subs cmds -> (length (concat cmds) <= fuel)%nat ->
+  split fuel (concat cmds) subs acc = SOk (rev acc ++ cmds).
+Proof.
+  induction cmds as [|c cmds IH]; intros fuel subs acc Hwf Hfr Hfuel.
+  - cbn. rewrite app_nil_r. destruct fuel; reflexivity.
+  - inversion Hwf as [|? ? Hc Hwf']; subst. destruct Hfr as [Hnew Hfr'].
+    pose proof (wf_cmd_len c Hc) as Hlen.
+    cbn [concat] in *. rewrite app_length in Hfuel.
+    destruct (c ++ concat cmds) as [|x l] eqn:Ecs.
+    { apply app_eq_nil in Ecs. destruct Ecs as [-> _]. cbn in Hlen. lia. }
+    rewrite <- Ecs. destruct fuel as [|fuel]; [lia|].
+    assert (Hlen_cs : Z.of_nat (length (c ++ concat cmds)) = Z.of_nat (length c) + Z.of_nat (length (concat cmds)))
+      by (rewrite app_length; lia).
+    assert (Htake : forall k, k = Z.of_nat (length c) ->
+              firstn (Z.to_nat k) (c ++ concat cmds) = c /\ skipn (Z.to_nat k) (c ++ concat cmds) = concat cmds).
+    { intros k ->. rewrite Nat2Z.id. split; [apply firstn_app_exact|apply skipn_app_exact]. }
+    assert (Hsub : uint_le (slice 2 4 c) = Some (csub c)).
+    { apply uint_le_slice; lia. }
+    assert (Hrec : split fuel (concat cmds) (subs ++ [csub c]) (c :: acc) = SOk (rev acc ++ c :: cmds)).
+    { rewrite IH by (try assumption; lia). cbn [rev]. rewrite <- app_assoc. reflexivity. }
+    assert (Hz : zmem (csub c) subs = false).
+    { destruct (zmem (csub c) subs) eqn:E; [|reflexivity]. apply zmem_In in E. contradiction. }
+    destruct Hc as (cid & Hid & Hkind). unfold cmd_id in Hid.
+    rewrite Ecs. cbn [split]. rewrite <- Ecs.
+    rewrite (firstn_app_l 2 c (concat cmds)) by lia. rewrite Hid.
+    destruct Hkind as [[Hk Hl]|(Hk & sl & Hsl & Hsl0 & Hl)].
+    + assert (E12 : (cid =? 1) || (cid =? 2) = true) by lia. rewrite E12.
+      destruct (Z.ltb_spec (Z.of_nat (length (c ++ concat cmds))) cmd_len); [lia|].
+      destruct (Htake cmd_len (eq_sym Hl)) as [-> ->]. rewrite Hsub, Hz. exact Hrec.
+    + subst cid. cbn [Z.eqb orb].
+      assert (H42 : (42 <= length c)%nat) by (consts; lia).
+      replace (Z.to_nat pt_head) with 42%nat by reflexivity.
+      rewrite (firstn_app_l 42 c (concat cmds)) by lia.
+      assert (Es : slice 16 18 (firstn 42 c) = slice 16 18 c).
+      { rewrite <- (firstn_skipn 42 c) at 2. rewrite slice_app_l; [reflexivity|].
+        rewrite firstn_length. lia. }
+      rewrite Es, Hsl.
+      destruct (Z.ltb_spec (Z.of_nat (length (c ++ concat cmds))) (pt_head + sl * pt_entry)); [lia|].
+      destruct (Htake (pt_head + sl * pt_entry) (eq_sym Hl)) as [-> ->]. rewrite Hsub, Hz. exact Hrec.
+Qed.
+
+Lemma split_sound fuel : forall cs subs acc out,
+  nnl cs -> split fuel cs subs acc = SOk out ->
+  exists cmds, out = rev acc ++ cmds /\ cs = concat cmds /\ Forall wf_cmd cmds /\ fresh_subs subs cmds.
+Proof.
+  induction fuel as [|fuel IH]; intros cs subs acc out Hnn H.
+  - destruct cs; [|discriminate]. injection H as <-. exists []. rewrite app_nil_r. cbn. auto.
+  - destruct cs as [|x l] eqn:Ecs.
+    { injection H as <-. exists []. rewrite app_nil_r. cbn. auto. }
+    rewrite <- Ecs in *. assert (Hne : cs <> []) by (rewrite Ecs; discriminate).
+    assert (Hstep : forall k cid, cmd_id cs = Some cid -> Z.of_nat (length cs) >= k ->
+       (forall c, c = firstn (Z.to_nat k) cs -> c <> [] -> Z.of_nat (length c) = k -> wf_cmd c) ->
+       match uint_le (slice 2 4 (firstn (Z.to_nat k) cs)) with
+       | None => SErr ESubField
+       | Some sub => if zmem sub subs then SErr EDuplicate
+                     else split fuel (skipn (Z.to_nat k) cs) (subs ++ [sub]) (firstn (Z.to_nat k) cs :: acc)
+       end = SOk out ->
+       exists cmds, out = rev acc ++ cmds /\ cs = concat cmds /\ Forall wf_cmd cmds /\ fresh_subs subs cmds).
+    { intros k cid Hid Hk Hwf Hres.
+      set (c := firstn (Z.to_nat k) cs) in *.
+      destruct (uint_le (slice 2 4 c)) as [sub|] eqn:Esub; [|discriminate].
+      assert (Hc_ne : c <> []).
+      { intros E. rewrite E in Esub. discriminate. }
+      assert (Hsub : sub = csub c).
+      { assert (Hs : uint_le (slice 2 4 c) = Some (le_dec (slice 2 4 c))).
+        { apply uint_le_some. intros E. rewrite E in Esub. discriminate. }
+        unfold csub. congruence. }
+      destruct (zmem sub subs) eqn:Ez; [discriminate|].
+      apply IH in Hres; [|apply nnl_skipn, Hnn].
+      destruct Hres as (cmds & E1 & E2 & E3 & E4).
+      exists (c :: cmds). cbn [rev] in E1. rewrite <- app_assoc in E1. cbn [app] in E1.
+      split; [|split; [|split]].
+      - exact E1.
+      - cbn [concat]. rewrite <- E2. unfold c. symmetry. apply firstn_skipn.
+      - constructor; [|exact E3]. apply Hwf; [reflexivity|exact Hc_ne|].
+        unfold c. rewrite firstn_length.
+        assert (0 < k).
+        { destruct (Z.ltb_spec 0 k); [assumption|]. exfalso. apply Hc_ne. unfold c.
+          replace (Z.to_nat k) with 0%nat by lia. reflexivity. }
+        lia.
+      - cbn [fresh_subs]. subst sub. split; [|exact E4].
+        intros Hin. apply zmem_In in Hin. congruence. }
+    cbn [split] in H. rewrite Ecs in H. rewrite <- Ecs in H.
+    destruct (uint_le (firstn 2 cs)) as [cid|] eqn:Eid; [|discriminate].
+    destruct ((cid =? 1) || (cid =? 2)) eqn:E12.
+    + destruct (Z.ltb_spec (Z.of_nat (length cs)) cmd_len); [discriminate|].
+      apply (Hstep cmd_len cid); try assumption; try lia.
+      intros c Ec Hcne Hl. exists cid. split.
+      * unfold cmd_id. subst c. rewrite firstn_firstn. consts.
+        replace (Init.Nat.min 2 (Z.to_nat 26)) with 2%nat by reflexivity. exact Eid.
+      * left. split; [lia|exact Hl].
+    + destruct (Z.eqb_spec cid 4) as [->|N4]; [|discriminate].
+      destruct (uint_le (slice 16 18 (firstn (Z.to_nat pt_head) cs))) as [sl|] eqn:Esl; [|discriminate].
+      destruct (Z.ltb_spec (Z.of_nat (length cs)) (pt_head + sl * pt_entry)); [discriminate|].
+      assert (Hsl0 : 0 <= sl).
+      { assert (Hs : uint_le (slice 16 18 (firstn (Z.to_nat pt_head) cs)) =
+                     Some (le_dec (slice 16 18 (firstn (Z.to_nat pt_head) cs)))).
+        { apply uint_le_some. intros E. rewrite E in Esl. discriminate. }
+        rewrite Hs in Esl. assert (Hq : le_dec (slice 16 18 (firstn (Z.to_nat pt_head) cs)) = sl) by congruence.
+        rewrite <- Hq. apply le_dec_nnl, nnl_slice, nnl_firstn, Hnn. }
+      apply (Hstep (pt_head + sl * pt_entry) 4); try assumption; try lia.
+      intros c Ec Hcne Hl. exists 4. consts.
+      assert (H42 : (42 <= Z.to_nat (42 + sl * 20))%nat) by lia.
+      split.
+      * unfold cmd_id. subst c. rewrite firstn_firstn.
+        replace (Init.Nat.min 2 (Z.to_nat (42 + sl * 20))) with 2%nat by lia. exact Eid.
+      * right. split; [reflexivity|]. exists sl. split; [|split; [exact Hsl0|exact Hl]].
+        rewrite <- Esl. f_equal. replace (Z.to_nat 42) with 42%nat by reflexivity.
+        assert (E : firstn 42 cs = firstn 42 c).
+        { subst c. rewrite firstn_firstn. f_equal. lia. }
+        rewrite E. rewrite <- (firstn_skipn 42 c) at 1. rewrite slice_app_l; [reflexivity|].
+        rewrite firstn_length. subst c. rewrite firstn_length. lia.
+Qed.
+
+(* ------------------------------------------------------------------ well-formed messages *)
+
+(* The seven conditions of C14, read off the bytes m of one message; [prev] is the counter of the
+   previous message (None before the first), [cmds] the commands the message carries. *)
+Record wf_msg (prev : option Z) (m : list Z) (cmds : list (list Z)) : Prop := {
+  wf_start : firstn 4 m = start_flag;                       (* start flag *)
+  wf_minlen : 20 <= Z.of_nat (length m);                    (* header + end flag fit *)
+  wf_length : decl m = Z.of_nat (length m);                 (* declared length = actual length *)
+  wf_end : lastn 4 m = end_flag;                            (* end flag *)
+  wf_count : int_le (slice 12 16 m) = Z.of_nat (length cmds);   (* command count matches *)
+  wf_body : commands_string m = concat cmds;                (* the commands, back to back *)
+  wf_cmds : Forall wf_cmd cmds;                             (* known ids, prescribed lengths *)
+  wf_distinct : fresh_subs [] cmds;                         (* at most one per subsystem *)
+  wf_methods : resolve cmds <> None;                        (* each addressed handler exists *)
+  wf_counter : Some (mcnt m) <> prev                        (* counter differs from the previous *)
+}.
+
+Lemma parse_commands_sound m ds : nnl m -> parse_commands m = COk ds ->
+  exists cmds, int_le (slice 12 16 m) = Z.of_nat (length cmds) /\ commands_string m = concat cmds /\
+               Forall wf_cmd cmds /\ fresh_subs [] cmds /\ resolve cmds = Some ds.
+Proof.
+  intros Hnn H. unfold parse_commands in H.
+  destruct (split (length (commands_string m)) (commands_string m) [] []) as [cmds|e|] eqn:Es;
+    try discriminate.
+  apply split_sound in Es; [|apply nnl_slice, Hnn].
+  destruct Es as (cmds' & E1 & E2 & E3 & E4). cbn [rev app] in E1. subst cmds'.
+  destruct (Z.eqb_spec (Z.of_nat (length cmds)) (int_le (slice 12 16 m))) as [Ec|Ec]; [|discriminate].
+  destruct (resolve cmds) as [ds'|] eqn:Er; [|discriminate].
+  injection H as <-. exists cmds. auto.
+Qed.
+
+Lemma parse_commands_complete m cmds ds :
+  int_le (slice 12 16 m) = Z.of_nat (length cmds) -> commands_string m = concat cmds ->
+  Forall wf_cmd cmds -> fresh_subs [] cmds -> resolve cmds = Some ds ->
+  parse_commands m = COk ds.
+Proof.
+  intros Hc Hb Hw Hf Hr. unfold parse_commands. rewrite Hb.
+  rewrite split_complete by (try assumption; lia). cbn [rev app].
+  rewrite Hc, Z.eqb_refl, Hr. reflexivity.
+Qed.
+
+(* ---- completeness: a well-formed message arriving at an idle parser is executed *)
+
+Lemma firstn_S_snoc (l : list Z) k : (k < length l)%nat -> firstn (S k) l = firstn k l ++ [nth k l 0].
+Proof.
+  revert l. induction k as [|k IH]; intros [|x l] H; cbn [length] in H; try lia.
+  - reflexivity.
+  - change (x :: firstn (S k) l = (x :: firstn k l) ++ [nth k l 0]).
+    rewrite IH by lia. reflexivity.
+Qed.
+
+Lemma slice_firstn a b k (l : list Z) : (b <= k)%nat -> slice a b (firstn k l) = slice a b l.
+Proof.
+  intros H. destruct (Nat.le_gt_cases k (length l)) as [Hk|Hk].
+  - rewrite <- (firstn_skipn k l) at 2. rewrite slice_app_l; [reflexivity|].
+    rewrite firstn_length. lia.
+  - rewrite firstn_all2 by lia. reflexivity.
+Qed.
+
+Section Completeness.
+  Variables (st : fstate) (m : list Z) (cmds : list (list Z)) (ds : list dispatch).
+  Hypothesis Hidle : fidle st.
+  Hypothesis Hwf : wf_msg (f_cnt st) m cmds.
+  Hypothesis Hres : resolve cmds = Some ds.
+
+  Definition stk (k : nat) : fstate :=
+    mkF (firstn k m)
+        (if 8 <=? Z.of_nat k then decl m else f_len st)
+        (if 12 <=? Z.of_nat k then Some (mcnt m) else f_cnt st)
+        (if 16 <=? Z.of_nat k then int_le (slice 12 16 m) else f_num st).
+
+  Lemma stk_0 : stk 0 = st.
+  Proof. unfold stk. cbn. destruct st as [a b c d]. unfold fidle in Hidle. cbn in *. subst a. reflexivity. Qed.
+
+  Lemma stk_buf k : (k < length m)%nat -> f_msg (stk k) ++ [nth k m 0] = firstn (S k) m.
+  Proof. intros H. cbn [stk f_msg]. symmetry. apply firstn_S_snoc, H. Qed.
+
+  Lemma stk_step k : (S k < length m)%nat ->
+    parse (stk k) (nth k m 0) = (stk (S k), OTrue, None).
+  Proof.
+    intros Hk. destruct Hwf as [W1 W2 W3 W4 W5 W6 W7 W8 W9 W10].
+    pose proof (stk_buf k ltac:(lia)) as Hb.
+    assert (Hlen : Z.of_nat (length (firstn (S k) m)) = Z.of_nat k + 1) by (rewrite firstn_length; lia).
+    destruct (parse_cases (stk k) (nth k m 0)) as [H|[H|[H|[H|[H|[H|[H|[H|H]]]]]]]]; cbv zeta in H;
+      rewrite Hb in H; rewrite ?Hlen in H;
+      repeat match type of H with _ /\ _ => destruct H as [? H] end; rewrite H; clear H.
+    - exfalso. match goal with X : _ <> _ |- _ => apply X end.
+      rewrite firstn_length. replace (Init.Nat.min (S k) (length m)) with (S k) by lia.
+      rewrite <- W1. rewrite firstn_firstn. f_equal. lia.
+    - unfold keep, stk. cbn [f_len f_cnt f_num]. f_equal. f_equal.
+      repeat match goal with |- context [?a <=? ?b] => destruct (Z.leb_spec a b); try lia end; reflexivity.
+    - unfold keep, stk. cbn [f_len f_cnt f_num]. f_equal. f_equal.
+      repeat match goal with |- context [?a <=? ?b] => destruct (Z.leb_spec a b); try lia end; reflexivity.
+    - exfalso. rewrite lastn4_decl in * by (rewrite firstn_length; lia).
+      rewrite slice_firstn in * by lia. fold (decl m) in *. consts. lia.
+    - rewrite lastn4_decl by (rewrite firstn_length; lia). rewrite slice_firstn by lia. fold (decl m).
+      unfold stk. cbn [f_len f_cnt f_num]. f_equal. f_equal.
+      repeat match goal with |- context [?a <=? ?b] => destruct (Z.leb_spec a b); try lia end; reflexivity.
+    - exfalso. rewrite lastn4_mcnt in * by (rewrite firstn_length; lia).
+      rewrite slice_firstn in * by lia. fold (mcnt m) in *.
+      unfold stk in *. cbn [f_cnt] in *.
+      destruct (Z.leb_spec 12 (Z.of_nat k)); [lia|]. congruence.
+    - rewrite lastn4_mcnt by (rewrite firstn_length; lia). rewrite slice_firstn by lia. fold (mcnt m).
+      unfold stk. cbn [f_len f_cnt f_num]. f_equal. f_equal.
+      repeat match goal with |- context [?a <=? ?b] => destruct (Z.leb_spec a b); try lia end; reflexivity.
+    - rewrite lastn4_num by (rewrite firstn_length; lia). rewrite slice_firstn by lia.
+      unfold stk. cbn [f_len f_cnt f_num]. f_equal. f_equal.
+      repeat match goal with |- context [?a <=? ?b] => destruct (Z.leb_spec a b); try lia end; reflexivity.
+    - exfalso. unfold stk in *. cbn [f_len] in *.
+      destruct (Z.leb_spec 8 (Z.of_nat k)); lia.
+  Qed.
+
+  Lemma prefix_run k : (k < length m)%nat ->
+    frun st (firstn k m) = (stk k, repeat (OTrue, None) k).
+  Proof.
+    induction k as [|k IH]; intros Hk.
+    - cbn. rewrite stk_0. reflexivity.
+    - rewrite firstn_S_snoc by lia. rewrite frun_app. rewrite IH by lia. cbn [fst snd frun].
+      rewrite stk_step by lia. cbn [fst snd].
+      f_equal. rewrite <- repeat_cons. reflexivity.
+  Qed.
+
+  Lemma last_step : forall k, S k = length m ->
+    parse (stk k) (nth k m 0) = (mkF [] 0 (Some (mcnt m)) 0, OTrue, Some ds).
+  Proof.
+    intros k Hk. destruct Hwf as [W1 W2 W3 W4 W5 W6 W7 W8 W9 W10].
+    pose proof (stk_buf k ltac:(lia)) as Hb.
+    assert (Hm : firstn (S k) m = m) by (apply firstn_all2; lia).
+    rewrite Hm in Hb.
+    destruct (parse_cases (stk k) (nth k m 0)) as [H|[H|[H|[H|[H|[H|[H|[H|H]]]]]]]]; cbv zeta in H;
+      rewrite Hb in H;
+      repeat match type of H with _ /\ _ => destruct H as [? H] end; try lia.
+    - exfalso. unfold stk in *. cbn [f_len] in *. destruct (Z.leb_spec 8 (Z.of_nat k)); [|lia].
+      match goal with X : ~ _ |- _ => apply X end. lia.
+    - rewrite H. unfold completion. rewrite W4.
+      assert (Ef : zlist_eqb end_flag end_flag = true) by (apply zlist_eqb_eq; reflexivity).
+      rewrite Ef. rewrite (parse_commands_complete m cmds ds) by assumption.
+      cbn [fst snd]. unfold set_default, stk. cbn [f_cnt].
+      destruct (Z.leb_spec 12 (Z.of_nat k)); [reflexivity|lia].
+  Qed.
+
+  (* every byte answers True, nothing is started before the last byte, the last byte starts
+     exactly the commands of the message (in order), and the parser is idle again *)
+  Theorem wf_executed :
+    frun st m = (mkF [] 0 (Some (mcnt m)) 0,
+                 repeat (OTrue, None) (length m - 1) ++ [(OTrue, Some ds)]).
+  Proof.
+    pose proof (wf_minlen _ _ _ Hwf) as Hlen.
+    destruct (length m) as [|k] eqn:El; [lia|].
+    assert (Hsplit : m = firstn k m ++ [nth k m 0]).
+    { rewrite <- firstn_S_snoc by lia. symmetry. apply firstn_all2. lia. }
+    rewrite Hsplit at 1. rewrite frun_app. rewrite prefix_run by lia. cbn [fst snd frun].
+    rewrite last_step by lia. cbn [fst snd]. replace (S k - 1)%nat with k by lia. reflexivity.
+  Qed.
+End Completeness.
+
+(* ---- soundness: only well-formed messages are executed (every byte history) *)
+
+(* ghost: [prev] = the message counter the parser remembered when it was last idle *)
+Record ginv (prev : option Z) (st : fstate) : Prop := {
+  g_inv : finv st;
+  g_nn : nnl (f_msg st);
+  g_before : blen st < 12 -> f_cnt st = prev;
+  g_after : 12 <= blen st -> Some (mcnt (f_msg st)) <> prev
+}.
+
+Definition gnext (prev : option Z) (st' : fstate) : option Z :=
+  if fidleb st' then f_cnt st' else prev.
+
+Lemma ginv_idle st : f_msg st = [] -> ginv (f_cnt st) st.
+Proof.
+  intros E. split; [apply finv_idle, E|rewrite E; constructor| |]; unfold blen; rewrite E; cbn; try lia.
+  reflexivity.
+Qed.
+
+Lemma ginv_step prev st b : ginv prev st -> 0 <= b ->
+  ginv (gnext prev (fst (fst (parse st b)))) (fst (fst (parse st b))).
+Proof.
+  intros [Hinv Hnn Hb Ha] Hb0.
+  pose proof (finv_step st b Hinv) as Hinv'.
+  pose proof (len_snoc (f_msg st) b) as Hn.
+  assert (Hnn' : nnl (f_msg st ++ [b])).
+  { apply nnl_app. split; [exact Hnn|]. constructor; [exact Hb0|constructor]. }
+  assert (Hidle : forall st', f_msg st' = [] -> ginv (gnext prev st') st').
+  { intros st' E. unfold gnext, fidleb. rewrite E. apply ginv_idle, E. }
+  unfold blen in *.
+  destruct (parse_cases st b) as [H|[H|[H|[H|[H|[H|[H|[H|H]]]]]]]]; cbv zeta in H;
+    repeat match type of H with _ /\ _ => destruct H as [? H] end; rewrite H in *; cbn [fst] in *;
+    try (apply Hidle; reflexivity);
+    (assert (Eg : forall l c n0, gnext prev (mkF (f_msg st ++ [b]) l c n0) = prev);
+     [intros; unfold gnext, fidleb; cbn [f_msg]; destruct (f_msg st ++ [b]) eqn:E;
+        [exfalso; exact (snoc_nonempty _ _ E)|reflexivity]|]).
+  - unfold keep. rewrite Eg. split; try assumption; unfold blen; cbn [keep f_msg f_cnt]; intros; try lia.
+    apply Hb. lia.
+  - unfold keep. rewrite Eg. split; try assumption; unfold blen; cbn [keep f_msg f_cnt]; intros.
+    + apply Hb. lia.
+    + unfold mcnt. rewrite slice_app_l by lia. apply Ha. lia.
+  - rewrite Eg. split; try assumption; unfold blen; cbn [f_msg f_cnt]; intros; try lia.
+    apply Hb. lia.
+  - rewrite Eg. split; try assumption; unfold blen; cbn [f_msg f_cnt]; intros; try lia.
+    rewrite lastn4_mcnt in * by lia. fold (mcnt (f_msg st ++ [b])) in *.
+    rewrite <- Hb by lia. assumption.
+  - rewrite Eg. split; try assumption; unfold blen; cbn [f_msg f_cnt]; intros; try lia.
+    unfold mcnt. rewrite slice_app_l by lia. apply Ha. lia.
+Qed.
+
+Fixpoint grun (prev : option Z) (st : fstate) (bs : list Z) : option Z * fstate :=
+  match bs with
+  | [] => (prev, st)
+  | b :: bs' => let st' := fst (fst (parse st b)) in grun (gnext prev st') st' bs'
+  end.
+
+Lemma grun_state prev st bs : snd (grun prev st bs) = fstate_of st bs.
+Proof.
+  revert prev st. induction bs as [|b bs IH]; intros prev st; [reflexivity|].
+  cbn [grun]. rewrite IH, fstate_of_cons. reflexivity.
+Qed.
+
+Lemma ginv_run prev st bs : ginv prev st -> nnl bs ->
+  ginv (fst (grun prev st bs)) (snd (grun prev st bs)).
+Proof.
+  revert prev st. induction bs as [|b bs IH]; intros prev st H Hnn; [exact H|].
+  inversion Hnn; subst. cbn [grun]. apply IH; [|assumption]. apply ginv_step; assumption.
+Qed.
+
+(* one step from a state satisfying the ghost invariant: what is executed is well-formed *)
+Theorem executed_wf_step prev st b ds : ginv prev st -> 0 <= b ->
+  snd (parse st b) = Some ds ->
+  exists cmds, wf_msg prev (f_msg st ++ [b]) cmds /\ resolve cmds = Some ds.
+Proof.
+  intros [Hinv Hnn Hb Ha] Hb0 Hd.
+  pose proof (len_snoc (f_msg st) b) as Hn.
+  assert (Hnn' : nnl (f_msg st ++ [b])).
+  { apply nnl_app. split; [exact Hnn|]. constructor; [exact Hb0|constructor]. }
+  unfold blen in *.
+  destruct (parse_cases st b) as [H|[H|[H|[H|[H|[H|[H|[H|H]]]]]]]]; cbv zeta in H;
+    repeat match type of H with _ /\ _ => destruct H as [? H] end; rewrite H in Hd; cbn [snd] in Hd;
+    try discriminate.
+  set (m := f_msg st ++ [b]) in *.
+  unfold completion in Hd.
+  destruct (zlist_eqb (lastn 4 m) end_flag) eqn:Ee; [|discriminate].
+  apply zlist_eqb_eq in Ee.
+  destruct (parse_commands m) as [ds'| |] eqn:Ep; try discriminate. cbn [snd] in Hd.
+  injection Hd as ->.
+  destruct (parse_commands_sound m ds Hnn' Ep) as (cmds & C1 & C2 & C3 & C4 & C5).
+  destruct (inv_len st Hinv) as (L1 & L2 & L3); [unfold blen; lia|].
+  exists cmds. split; [|exact C5]. split; try assumption.
+  - unfold m. rewrite firstn_app_l by lia. rewrite (inv_flag st Hinv).
+    apply firstn_all2. change (length start_flag) with 4%nat. lia.
+  - consts. lia.
+  - unfold decl, m. rewrite slice_app_l by lia. fold (decl (f_msg st)). fold m. lia.
+  - rewrite C5. discriminate.
+  - unfold mcnt, m. rewrite slice_app_l by lia. apply Ha. lia.
+Qed.
+
+(* every byte history: whenever commands are started, the bytes buffered since the parser was
+   last idle form a well-formed message (w.r.t. the counter remembered at that time) *)
+Theorem executed_wf bs b ds : nnl bs -> 0 <= b ->
+  let prev := fst (grun None f_init bs) in
+  let st := fstate_of f_init bs in
+  snd (parse st b) = Some ds ->
+  exists cmds, wf_msg prev (f_msg st ++ [b]) cmds /\ resolve cmds = Some ds.
+Proof.
+  intros Hnn Hb0. cbv zeta. rewrite <- (grun_state None f_init bs).
+  apply executed_wf_step; [|exact Hb0].
+  apply ginv_run; [|exact Hnn]. apply (ginv_idle f_init). reflexivity.
+Qed.
+
+(* the ghost is what it claims to be: the buffer holds exactly the bytes received since the
+   parser was last idle, and [prev] is the counter it remembered then *)
+Theorem grun_meaning bs : exists pre,
+  bs = pre ++ f_msg (fstate_of f_init bs) /\
+  fidle (fstate_of f_init pre) /\
+  fst (grun None f_init bs) = f_cnt (fstate_of f_init pre).
+Proof.
+  assert (G : forall bs hist prev st,
+             (exists pre, hist = pre ++ f_msg st /\ fidle (fstate_of f_init pre) /\
+                          prev = f_cnt (fstate_of f_init pre)) ->
+             st = fstate_of f_init hist ->
+             exists pre, hist ++ bs = pre ++ f_msg (snd (grun prev st bs)) /\
+                         fidle (fstate_of f_init pre) /\
+                         fst (grun prev st bs) = f_cnt (fstate_of f_init pre)).
+  { induction bs0 as [|b bs0 IH]; intros hist prev st (pre & E1 & E2 & E3) Est.
+    - exists pre. rewrite app_nil_r. cbn. auto.
+    - cbn [grun]. replace (hist ++ b :: bs0) with ((hist ++ [b]) ++ bs0) by (rewrite <- app_assoc; reflexivity).
+      apply IH.
+      + destruct (parse_buffer st b) as [Hb|Hb].
+        * exists (hist ++ [b]). rewrite Hb, app_nil_r.
+          assert (Es : fstate_of f_init (hist ++ [b]) = fst (fst (parse st b))).
+          { rewrite fstate_of_app, <- Est. rewrite fstate_of_cons. reflexivity. }
+          rewrite Es. unfold gnext, fidleb, fidle. rewrite Hb. auto.
+        * exists pre. rewrite Hb. unfold gnext, fidleb. rewrite Hb.
+          destruct (f_msg st ++ [b]) eqn:E; [exfalso; exact (snoc_nonempty _ _ E)|]. rewrite <- E.
+          rewrite E1, <- app_assoc. auto.
+      + rewrite fstate_of_app, <- Est. rewrite fstate_of_cons. reflexivity. }
+  destruct (G bs [] None f_init) as (pre & E1 & E2 & E3).
+  - exists []. repeat split; reflexivity.
+  - reflexivity.
+  - exists pre. rewrite <- (grun_state None f_init bs). auto.
+Qed.
